@@ -193,6 +193,7 @@ struct V : RecursiveASTVisitor<V> {
       }
     } else if (auto *FD = E->getDirectCallee()) {
       call(FD, false, E->getBeginLoc(), "call");
+      if (!inRepo(tpattern(FD)->getLocation())) callbackEdges(E);
       if (auto *OC = dyn_cast<CXXOperatorCallExpr>(E)) { if (auto *M = dyn_cast<CXXMethodDecl>(FD)) if (!M->isConst() && !M->isStatic() && OC->getNumArgs() > 0) noteWrite(OC->getArg(0), (std::string("call:operator") + getOperatorSpelling(OC->getOperator())).c_str(), E->getBeginLoc()); }
     } else {
       json::Object o; o["t"] = "IND"; o["from"] = fkey(cur); o["loc"] = loc(E->getBeginLoc()); o["type"] = ty(E->getCallee()->getType()); o["h"] = handlerStack();
@@ -207,6 +208,24 @@ struct V : RecursiveASTVisitor<V> {
       }
     }
     return true;
+  }
+  // a repo functor object or repo function handed to an external function (std::stable_sort, std::for_each, bsearch ...):
+  // the external code may call it; model that as an edge from the caller
+  void callbackEdges(CallExpr *E) {
+    for (auto *A : E->arguments()) {
+      const Expr *X = A->IgnoreParenImpCasts();
+      if (auto *M = dyn_cast<MaterializeTemporaryExpr>(X)) X = M->getSubExpr()->IgnoreParenImpCasts();
+      if (auto *DR = dyn_cast<DeclRefExpr>(X)) if (auto *FD = dyn_cast<FunctionDecl>(DR->getDecl())) { if (inRepo(tpattern(FD)->getLocation())) call(FD, false, E->getBeginLoc(), "callback"); continue; }
+      if (auto *UO = dyn_cast<UnaryOperator>(X)) if (UO->getOpcode() == UO_AddrOf) if (auto *DR = dyn_cast<DeclRefExpr>(UO->getSubExpr()->IgnoreParenImpCasts())) if (auto *FD = dyn_cast<FunctionDecl>(DR->getDecl())) { if (inRepo(tpattern(FD)->getLocation())) call(FD, false, E->getBeginLoc(), "callback"); continue; }
+      QualType T = A->getType().getNonReferenceType();
+      if (auto *RD = T->getAsCXXRecordDecl()) {
+        if (!RD->hasDefinition() || !inRepo(RD->getLocation())) continue;
+        for (auto *D : RD->decls()) {
+          auto *M = dyn_cast<CXXMethodDecl>(D);
+          if (M && M->getOverloadedOperator() == OO_Call) call(M, M->isVirtual(), E->getBeginLoc(), "callback");
+        }
+      }
+    }
   }
   bool VisitCXXConstructExpr(CXXConstructExpr *E) {
     call(E->getConstructor(), false, E->getBeginLoc(), "ctor");
